@@ -1,4 +1,5 @@
 import SamplyModel.Lemmas.SourceApi
+import SamplyModel.Lemmas.SourceApiHex
 /-!
 # C09 — `/source/v1` only ever reads files named by the debug info of the queried address
 
@@ -465,6 +466,23 @@ theorem C09_offset_string {DL Loc : Type} (apiPath : SourceFilePath → String) 
     exact ⟨(parseModuleOffset_some h).1, (parseModuleOffset_some h).2, by simp [RawRequest.toOffsetRequest, h]⟩
   · intro h
     simp [RawRequest.toOffsetRequest, h, sourceApiAt, sourceApi]
+
+/-- **Every `u32` offset has an accepted spelling.** The lower-case hex rendering `0x{:x}` of any offset below
+`2^32` (`Nat.toDigits 16 n` — the spelling the front end uses for the offsets `/symbolicate/v5` answered) is
+accepted by `from_prefixed_hex_str` and denotes exactly `n`: the request reaches the permission check with the
+offset the client meant, so the "every reported path is accepted for that same offset" clause
+(`C09_complete`, `C09_accepted_iff_reported_in_batch`) is not lost in the parsing of the body. Together with `C09_offset_string`
+(`some n → n < 2^32`): the accepted offsets are exactly the `u32` values. -/
+theorem C09_offset_string_complete (r : RawRequest) (n : Nat) (h : n < 4294967296)
+    (hs : r.offsetStr = '0' :: 'x' :: Nat.toDigits 16 n) :
+    parseModuleOffset r.offsetStr = some n ∧
+    r.toOffsetRequest = ⟨r.wellFormedJson, r.debugId, n, r.file⟩ := by
+  have hp : parseModuleOffset r.offsetStr = some n := by rw [hs]; exact parseModuleOffset_toDigits16 n h
+  exact ⟨hp, by simp [RawRequest.toOffsetRequest, hp]⟩
+
+/-- non-vacuity: the spelling of the fixture offset, and of the largest `u32` -/
+example : '0' :: 'x' :: Nat.toDigits 16 30426946 = "0x1d04742".toList ∧
+    '0' :: 'x' :: Nat.toDigits 16 4294967295 = "0xffffffff".toList := by decide
 
 /-! ## Both endpoints see the same frames
 
